@@ -209,7 +209,17 @@ AncestorCons(d, id, fuel) ==
   IF fuel = 0 \/ ~HasDecl(d, id) THEN <<>>
   ELSE LET x == DeclOf(d, id) IN x.cons \o (IF x.parent # "" THEN AncestorCons(d, x.parent, fuel - 1) ELSE <<>>)
 
-(* codes raised by group-field constraint lists (pass 10) and by inheritance constraint lists (pass 11) *)
+(* Ref (Identifiers): "Field identifiers declared in a packet belong to the scope that extends to the      *)
+(* packet and all derived packets", "field identifiers declared in a group belong to the scope that          *)
+(* extends to the packets declaring a group field for this group", "two fields may not be declared with      *)
+(* the same identifier in any packet scope".  V11 sees the fields written in one declaration; V11Scope       *)
+(* sees the whole scope: the declaration's fields with groups expanded (a constrained group field has       *)
+(* become a fixed field and carries no identifier any more) and the fields of every ancestor.  It is        *)
+(* evaluated once groups can be expanded, i.e. after the group-constraint pass.                              *)
+DupIds(fields) == \E j \in 1..Len(fields), k \in 1..Len(fields) : j < k /\ fields[j].id # "" /\ fields[j].id = fields[k].id
+V11Scope(d) == \E i \in PS(d) : DupIds(ScopeFields(d, d.decls[i].id, 8))
+
+(* codes raised by group-field constraint lists (pass 10) and by inheritance constraint lists (pass 12) *)
 GroupConsCodes(d) ==
   UNION {UNION {LET f == d.decls[i].fields[j] IN
                 IF f.kind = "group" /\ KindOf(d, f.type) = "group"
@@ -263,12 +273,13 @@ PassCodes(d, p) ==
     [] p = 9 -> {c \in {45, 46, 47, 48, 49} :
                    CASE c = 45 -> V45(d) [] c = 46 -> V46(d) [] c = 47 -> V47(d) [] c = 48 -> V48(d) [] c = 49 -> V49(d)}
     [] p = 10 -> GroupConsCodes(d)
-    [] p = 11 -> DeclConsCodes(d)
-    [] p = 12 -> IF V51(d) THEN {51} ELSE {}
-    [] p = 13 -> {c \in {52, 53} : CASE c = 52 -> V52(d) [] c = 53 -> V53(d)}
+    [] p = 11 -> IF V11Scope(d) THEN {11} ELSE {}
+    [] p = 12 -> DeclConsCodes(d)
+    [] p = 13 -> IF V51(d) THEN {51} ELSE {}
+    [] p = 14 -> {c \in {52, 53} : CASE c = 52 -> V52(d) [] c = 53 -> V53(d)}
     [] OTHER -> {}
 
-NPASS == 13
+NPASS == 14
 RECURSIVE FirstFailing(_, _)
 FirstFailing(d, p) == IF p > NPASS THEN -1 ELSE IF PassCodes(d, p) # {} THEN p ELSE FirstFailing(d, p + 1)
 
